@@ -317,3 +317,26 @@ Inductive dstep :=
 Definition client_disconnect : list dstep := [DStopKeepalive; DWriteCloseTag; DWaitPeer; DCloseConn].
 (* the loop's environment from the moment Disconnect is called: quit is closed before anything else happens *)
 Definition disconnect_events (rest : list ev) : list ev := ECloseQuit :: rest.
+
+(* ---- the quit channels of the successive connections of ONE client ----
+   Client.newKeepaliveQuit (called by Connect and by Resume once the session is established) makes a fresh
+   quit channel TOGETHER WITH a fresh once-guard for its close, and stores the pair in the client
+   (keepaliveQuit / keepaliveStop) in place of the previous connection's.  keepaliveStop - called by
+   Disconnect and by the receiver of that connection, whoever comes first, possibly both - closes the channel
+   of the pair the client holds, once.  State: the channels made so far, newest first; true = closed. *)
+Inductive cop :=
+| OpNew     (* newKeepaliveQuit: a session has been established *)
+| OpStop.   (* keepaliveStop: Disconnect, or the receiver when the connection is over *)
+Definition client_op (st : list bool) (o : cop) : list bool :=
+  match o, st with
+  | OpNew, _ => false :: st
+  | OpStop, [] => []                 (* no connection yet: Disconnect finds no closer *)
+  | OpStop, _ :: t => true :: t      (* the guard belongs to THIS channel: closed now if it was not *)
+  end.
+Definition client_quits (st : list bool) (ops : list cop) : list bool := fold_left client_op ops st.
+(* a history of sessions on one client: session k is established, and ended with 1 + n_k requests to stop its
+   keep-alive (Disconnect and the receiver may both ask) *)
+Definition session_ops (n : nat) : list cop := OpNew :: repeat OpStop (S n).
+Definition history_ops (h : list nat) : list cop := flat_map session_ops h.
+(* is the quit channel of the k-th session (0-based, in order of establishment) closed? *)
+Definition quit_closed (st : list bool) (k : nat) : bool := nth k (rev st) false.
